@@ -2,6 +2,7 @@ package main
 
 import (
 	"fmt"
+	"strconv"
 	"strings"
 	"verifharness/docs"
 	"verifharness/gen"
@@ -635,5 +636,79 @@ func c15(r *mon.Run) {
 				t.Count("mixed lists: both steps succeed, the pipe must give B's value")
 			}
 		}}
-	r.Exec(law1, law2, shaped, dead, behind, akPipe, hugew, lpw, ff)
+	// law 2 next to readers of the same members: E is a call that might work in place on what another construct hands back from
+	// the document (sort_by / sort / reverse / merge over to_array, not_null, ||, a parenthesis, an index into a multi-select, max_by ...);
+	// its siblings read the members E was fed from. With E replaced by the literal of its value nothing can have been touched, so
+	// the two sides differ exactly when evaluating E changed what the siblings see
+	hbBase := c06BaseDoc()
+	hbs := c06HandBacks(false)
+	readers := func() []*gen.Expr {
+		return []*gen.Expr{gen.Field("an"), gen.Field("as"), gen.Field("ao"), gen.Field("o"), gen.Field("bign"), gen.Chain(gen.Field("ao"), gen.StIndex(0), gen.StField("s"))}
+	}
+	hbCtx := []func(e *gen.Expr) *gen.Expr{
+		func(e *gen.Expr) *gen.Expr { return gen.MultiList(append([]*gen.Expr{e}, readers()...)...) },
+		func(e *gen.Expr) *gen.Expr {
+			return gen.MultiHash([]gen.Key{{Name: "e"}, {Name: "a"}, {Name: "s"}, {Name: "x"}, {Name: "o"}}, []*gen.Expr{e, gen.Field("an"), gen.Field("as"), gen.Field("ao"), gen.Field("o")})
+		},
+		func(e *gen.Expr) *gen.Expr { return gen.MultiList(e, gen.Clone(e), gen.Field("an"), gen.Field("as")) },
+		func(e *gen.Expr) *gen.Expr {
+			return gen.Pipe(gen.MultiList(e, gen.Current()), gen.Chain(nil, gen.StIndex(1)))
+		},
+		func(e *gen.Expr) *gen.Expr {
+			return gen.Func("not_null", gen.Chain(gen.MultiList(e), gen.StIndex(5)), gen.MultiList(readers()...))
+		},
+	}
+	hbw := mon.Workload{Name: "substitution-next-to-readers-of-the-same-members", N: len(hbs) * len(hbCtx), Batch: 200,
+		Do: func(i int, t *mon.Tally) {
+			E, C := hbs[i/len(hbCtx)], hbCtx[i%len(hbCtx)]
+			t.Eval()
+			oe := apiSearch(gen.Spell(E), mon.DeepCopy(hbBase))
+			if oe.Panicked || oe.Err != nil || mon.JSONClosed(oe.V) != "" {
+				t.Count("law 2 next to readers: E has no substitutable value, skipped")
+				return
+			}
+			T1, T2 := C(gen.Clone(E)), C(gen.LitVal(oe.V))
+			o1 := via(i, gen.Spell(T1), mon.DeepCopy(hbBase))
+			o2 := via(i, gen.Spell(T2), mon.DeepCopy(hbBase))
+			if o1.Panicked || o2.Panicked || !sameOutcome(o1, o2) {
+				r.Violate(&mon.Violation{Workload: "substitution-next-to-readers-of-the-same-members", Index: i, API: "Search", Expr: gen.Spell(T1), Doc: hbBase,
+					Expected: "same as with the sub-expression " + gen.Spell(E) + " replaced by the literal of its value: " + clipStr(o2.String(), 600), Observed: clipStr(o1.String(), 600), Class: "substitution law next to readers of the same members"})
+				return
+			}
+			t.Nontrivial("hb:" + strconv.Itoa(i))
+		}}
+	// the pipe law for steps that are deeply nested: a limit on nesting, a depth counter or a recursion budget counts a step the
+	// same whether it stands alone or behind a pipe - every depth next to a round number or a power of two
+	var deepD []int
+	for _, c := range []int{16, 32, 50, 64, 100, 128, 200, 250, 255, 256, 500, 512, 1000, 1024, 2000, 2048, 4096, 5000, 8192, 10000} {
+		deepD = append(deepD, c-2, c-1, c, c+1, c+2)
+	}
+	nestKinds := []struct{ pre, core, suf string }{{"(", "[0]", ")"}, {"(", "b", ")"}, {"[", "@", "]"}, {"!", "b", ""}, {"{k:", "b", "}"}, {"not_null(", "b", ")"}, {"(", "@", ")[0]"}}
+	dpw := mon.Workload{Name: "pipe-law-for-deeply-nested-steps", N: len(deepD) * len(nestKinds) * 3, Batch: 20,
+		Do: func(i int, t *mon.Tally) {
+			d, nk, side := deepD[i/3/len(nestKinds)], nestKinds[i/3%len(nestKinds)], i%3
+			deep := strings.Repeat(nk.pre, d) + nk.core + strings.Repeat(nk.suf, d)
+			A, B := "a", deep
+			switch side {
+			case 1:
+				A, B = deep, "[0]"
+			case 2:
+				A, B = deep, deep
+			}
+			doc := docs.J(`{"a":[{"b":[1,2]},2],"b":[[3],4]}`)
+			t.Eval()
+			ow := apiSearch(A+" | "+B, mon.DeepCopy(doc))
+			oa := apiSearch(A, mon.DeepCopy(doc))
+			ob := oa
+			if !oa.Panicked && oa.Err == nil {
+				ob = apiSearch(B, oa.V)
+			}
+			if ow.Panicked || ob.Panicked || !sameOutcome(ow, ob) {
+				r.Violate(&mon.Violation{Workload: "pipe-law-for-deeply-nested-steps", Index: i, API: "Search", Expr: brief(A + " | " + B), Doc: doc,
+					Expected: fmt.Sprintf("Search(B, Search(A, d)) with a step nested %d deep: %s", d, brief(ob.String())), Observed: brief(ow.String()), Class: "pipe law for deeply nested steps"})
+				return
+			}
+			t.Nontrivial("dp:" + strconv.Itoa(i))
+		}}
+	r.Exec(law1, law2, shaped, dead, behind, akPipe, hugew, lpw, ff, hbw, dpw)
 }
